@@ -408,6 +408,9 @@ func reverse(m *RMsg, c Comp, tag string) {
 	}
 	cs := func() map[string]any { return msgCase(m, wire, map[string]any{"writer": tag}) }
 	var g *llmnr.Message
+	if len(wire)%3 == 0 {
+		provoke(wire) // the valid decode below follows refused ones
+	}
 	in := append([]byte(nil), wire...) // the caller's buffer: overwritten after the call
 	p, v, st := mon.Guard(func() { g, err = llmnr.DecodeMessage(in) })
 	r.Eval(1)
@@ -464,6 +467,26 @@ func reverse(m *RMsg, c Comp, tag string) {
 	}
 	if nontrivialMsg(m, encs) {
 		r.Nontrivial("rev|" + tag + "|" + fp(wire))
+	}
+}
+
+// provoke feeds damaged versions of a valid message to the decoder and drops the results: a
+// decode that is refused (or that panics, which C07 judges) must leave nothing behind that a
+// later decode could see.
+func provoke(wire []byte) {
+	var bad [][]byte
+	bad = append(bad, wire[:len(wire)/2], wire[:len(wire)-1], wire[:min(len(wire), 12)], wire[:min(len(wire), 13)])
+	if len(wire) >= 12 {
+		c := append([]byte(nil), wire...)
+		copy(c[4:12], []byte{0xFF, 0xFF, 0xFF, 0xFF, 0xFF, 0xFF, 0xFF, 0xFF}) // counts far beyond the content
+		bad = append(bad, c)
+		l := append(append([]byte(nil), wire[:12]...), 0xC0, 0x0C, 0, 1, 0, 1) // a name pointing at itself
+		l[4], l[5] = 0, 1
+		bad = append(bad, l)
+	}
+	for _, b := range bad {
+		mon.Guard(func() { llmnr.DecodeMessage(append([]byte(nil), b...)) })
+		r.Count("refused_decodes_before_a_valid_one", 1)
 	}
 }
 
